@@ -10,7 +10,7 @@ set_option linter.unusedSectionVars false
 variable [EnvHyp]
 
 /-- `inner.stopCore` behaves like `stop()`'s body -/
-def OpsS (inner : Ops) : Prop := ∀ s, QG 0 s → QS (inner.stopCore s) ∧ Stopped (inner.stopCore s)
+def OpsS (inner : Ops) : Prop := ∀ s, QG 0 s → s.startD ≠ .none → QS (inner.stopCore s) ∧ Stopped (inner.stopCore s)
 
 /-- what the caller of a shutdown continuation needs to know about the state it returns -/
 def After (s s' : St) : Prop :=
@@ -57,7 +57,11 @@ theorem shutdownFinish_run_q (r : Option Fail) (s : St) (h : QG 1 s) (hst : s.st
   have e : nestedStop inner { s with shutdownD := false } = inner.stopCore { s with shutdownD := false } := by
     unfold nestedStop
     rw [if_neg (by simp [hst]), if_neg (by simpa using hsh.1)]
-  obtain ⟨a, b⟩ := hs _ h1
+  have hsd : s.shutdownD = true := by
+    cases hq : s.shutdownD with
+    | true => rfl
+    | false => have := h.sd hq; omega
+  obtain ⟨a, b⟩ := hs _ h1 (by simpa using hsh.1)
   have hle := lists_empty a.1 b.retry b.ccall (by simp [looperDue, b.looper]) b.req b.creq
   have b1 := b.startD
   have b2 := b.proc
@@ -70,7 +74,7 @@ theorem shutdownFinish_run_q (r : Option Fail) (s : St) (h : QG 1 s) (hst : s.st
   obtain ⟨ht, hq⟩ := hle
   unfold crash
   split
-  · exact ⟨⟨by qg_leaf a, hst2⟩, fun _ => b2, Or.inl b1⟩
+  · rename_i hh; simp [hsd] at hh
   · split
     · exact ⟨⟨by qg_leaf a, hst2⟩, fun _ => b2, Or.inl b1⟩
     · exact ⟨⟨by qg_leaf a, hst2⟩, fun _ => b2, Or.inl b1⟩
